@@ -221,7 +221,71 @@ func runC19(c *engine.Ctx) {
 		}
 		sel := c.P.Func("responsemanager/responseassembler", "peerLinkTracker", "getLinkTracker")
 		if sel == nil {
-			c.AnchorMissing(r3, "peerLinkTracker.getLinkTracker")
+			// the selection written in place (or in a helper of another shape, dissolved into its callers): a value that
+			// is altTrackers[...] on some ways and the peer-wide tracker on the others
+			sites := 0
+			for _, f := range c.P.FuncsIn("responsemanager/responseassembler") {
+				engine.Instrs(f, func(in ssa.Instruction) {
+					ph, isPhi := in.(*ssa.Phi)
+					if !isPhi {
+						return
+					}
+					outs := engine.ValueOutcomes(ph, ph.Block())
+					isSelection := false
+					for _, o := range outs {
+						if lk, isL := engine.LocalValue(o.V).(*ssa.Lookup); isL && isLoadOfField(lk.X, alt) {
+							isSelection = true
+						}
+					}
+					if !isSelection {
+						return
+					}
+					sites++
+					okSel := len(outs) >= 2
+					for _, o := range outs {
+						hasKey := false
+						for _, cd := range o.Conds {
+							if ex, isEx := cd.V.(*ssa.Extract); isEx && ex.Index == 1 {
+								if lk, isL := ex.Tuple.(*ssa.Lookup); isL && isLoadOfField(lk.X, dk) {
+									hasKey = cd.Pol
+								}
+							}
+						}
+						v := engine.LocalValue(o.V)
+						if lk, isL := v.(*ssa.Lookup); isL && isLoadOfField(lk.X, alt) {
+							if !hasKey {
+								okSel = false
+							}
+						} else if isLoadOfField(v, deflt) {
+							if hasKey {
+								okSel = false
+							}
+						} else {
+							okSel = false
+						}
+					}
+					c.Decide(r3, engine.FuncName(f)+"|tracker-selection", ph.Pos(), okSel, "altTrackers[dedupKeys[request]] when the request has a key, the peer-wide tracker otherwise", "tracker selection does not follow the request's dedup key")
+				})
+			}
+			if sites == 0 {
+				c.AnchorMissing(r3, "peerLinkTracker.getLinkTracker (or an in-place selection between altTrackers[...] and the peer-wide tracker)")
+			}
+			readsKey := engine.LiftMay(func(in ssa.Instruction) bool {
+				lk, ok := in.(*ssa.Lookup)
+				return ok && lk.CommaOk && isLoadOfField(lk.X, dk)
+			})
+			for _, f := range c.P.FuncsIn("responsemanager/responseassembler") {
+				for _, d := range engine.MapDeletesOfField([]*ssa.Function{f}, dk) {
+					late, at := engine.CanReach(d, readsKey, nil)
+					where := ""
+					if at != nil {
+						where = " (at " + c.P.Pos(at.Pos()) + ")"
+					}
+					c.Decide(r3, engine.FuncName(f)+"|tracker-resolved-before-key-removed", d.Pos(), !late,
+						"the request's tracker is resolved before its dedup key is removed",
+						"the request's tracker is looked up after its dedup key has been deleted"+where+": a keyed request is then finished against the peer-wide tracker — its references in the keyed tracker are never released and a missing block goes unreported (complete instead of partial)")
+				}
+			}
 		} else {
 			okSel := true
 			n := 0
